@@ -43,6 +43,10 @@ pub enum Sched {
     /// stall or a forward jump); expiry is decided by comparing with the
     /// deadline that arrives at the probe
     Cost { seed: u64, profile: u8 },
+    /// virtual time is the work done so far: the deadline has passed once the
+    /// calling thread has made `budget` element comparisons (time runs out
+    /// between two probes, wherever the code happens to be)
+    Work { budget: u64 },
 }
 
 #[derive(Debug)]
@@ -139,6 +143,7 @@ impl verif::Clock for SimClock {
             Sched::Never => false,
             Sched::Indexed(k) => idx >= k,
             Sched::Cost { .. } => st.now_ns > off,
+            Sched::Work { budget } => cmps() >= budget,
         };
         if ans {
             if st.first_expired.is_none() {
